@@ -1114,6 +1114,8 @@ class MiniInt:
         self.F, self.atom, self.max_depth = F, atom, max_depth
         self.mem = mem          # mem(address) -> value, for `*p` / `p[i]` over a modelled buffer (pointers are integers)
         self.seq = seq          # seq(text, node, env) -> list of element values of a container expression (range-for, algorithms)
+        self.select_only = False  # True: `return e;` ends the case with the ReturnStmt node itself (which return is taken), and
+                                  # declarations whose initialiser is outside the fragment are kept opaque
         self.cur = []           # stack of the functions being evaluated (to find the lambdas they define)
 
     def _lambda_of(self, node):
@@ -1287,7 +1289,7 @@ class MiniInt:
                         try:
                             env[v["declId"]] = self.expr(kids(v)[0], env, depth)
                         except AnalysisBroken:
-                            if self._opaque(v, env):
+                            if self._opaque(v, env) or self.select_only:
                                 env[v["declId"]] = ("obj", kids(v)[0], env)      # a non-scalar local (reference to a container, ...)
                             else:
                                 raise
@@ -1366,6 +1368,8 @@ class MiniInt:
             elif k == "CXXThrowExpr" or (k == "ExprWithCleanups" and strip(s) is not None and strip(s)["k"] == "CXXThrowExpr"):
                 raise CaseThrow(render(s)[:80])
             elif k == "ReturnStmt":
+                if self.select_only and depth == 0:
+                    raise _CaseReturn(s)
                 raise _CaseReturn(self.expr(kids(s)[0], env, depth) if kids(s) else None)
             elif k == "NullStmt":
                 pass
